@@ -24,6 +24,7 @@ impl ChiSquared {
     pub fn set_dof(&mut self, dof: usize) -> &mut Self {
         assert!(dof > 0, "Degrees of freedom must be positive.");
         self.dof = dof;
+        self.sampler = Gamma::new((dof as f64) / 2., 0.5);
         self
     }
 }
